@@ -1,17 +1,15 @@
 (* ---- SlotMap.v (prototype) : src/slot_map.rs with explicit u32 generation arithmetic ---- *)
 From Coq Require Import List NArith Bool Lia PeanoNat.
 Import ListNotations.
+Require Import EV.Base.
 Open Scope N_scope.
 
-Definition U32MAX : N := 4294967295.
-Definition TWO32 : N := 4294967296.
 Definition wrap_succ (g : N) : N := (g + 1) mod TWO32.
 
 Section SM.
 Variable V : Type.
 Record slot := mkSlot { gen : N; link : N; val : option V }.   (* link = union.next_free, val = union.value *)
-Record smap := mkSm { slots : list slot; next_free : N; len : N }.
-Definition key := (N * N)%type.                                 (* (index, generation) *)
+Record smap := mkSm { slots : list slot; next_free : N; sm_len : N }.
 
 (* indices stay in N: the model must run with next_free = U32MAX without building a unary number *)
 Fixpoint sget (l : list slot) (i : N) : option slot :=
@@ -32,22 +30,22 @@ Fixpoint upd (l : list slot) (i : nat) (s : slot) : list slot :=
   | h :: t, S j => h :: upd t j s
   end.
 
-Definition empty : smap := mkSm [] U32MAX 0.
+Definition sm_empty : smap := mkSm [] U32MAX 0.
 
 Definition insert_with (f : key -> V) (m : smap) : option (key * smap) :=
   match sget (slots m) (next_free m) with
   | Some s =>
       let k := (next_free m, gen s + 1) in
       Some (k, mkSm (supd (slots m) (next_free m) (mkSlot (gen s + 1) (link s) (Some (f k))))
-                    (link s) (len m + 1))
+                    (link s) (sm_len m + 1))
   | None =>
       let index := N.of_nat (length (slots m)) in
       if index =? U32MAX then None
       else let k := (index, 1) in
-           Some (k, mkSm (slots m ++ [mkSlot 1 0 (Some (f k))]) (next_free m) (len m + 1))
+           Some (k, mkSm (slots m ++ [mkSlot 1 0 (Some (f k))]) (next_free m) (sm_len m + 1))
   end.
 
-Definition remove (k : key) (m : smap) : option (V * smap) :=
+Definition sm_remove (k : key) (m : smap) : option (V * smap) :=
   match sget (slots m) (fst k) with
   | None => None
   | Some s =>
@@ -57,13 +55,13 @@ Definition remove (k : key) (m : smap) : option (V * smap) :=
         | Some v =>
             let g' := wrap_succ (gen s) in
             if g' =? 0
-            then Some (v, mkSm (supd (slots m) (fst k) (mkSlot 0 (link s) None)) (next_free m) (len m - 1))
-            else Some (v, mkSm (supd (slots m) (fst k) (mkSlot g' (next_free m) None)) (fst k) (len m - 1))
+            then Some (v, mkSm (supd (slots m) (fst k) (mkSlot 0 (link s) None)) (next_free m) (sm_len m - 1))
+            else Some (v, mkSm (supd (slots m) (fst k) (mkSlot g' (next_free m) None)) (fst k) (sm_len m - 1))
         end
       else None
   end.
 
-Definition get (k : key) (m : smap) : option V :=
+Definition sm_get (k : key) (m : smap) : option V :=
   match sget (slots m) (fst k) with
   | Some s => if gen s =? snd k then val s else None
   | None => None
@@ -149,7 +147,7 @@ Lemma insert_inv f m k m' : SmInv m -> insert_with f m = Some (k, m') -> SmInv m
 Proof.
   intros ((c & Hc & Hnd) & Hok & Hb) H. unfold insert_with in H.
   destruct (sget (slots m) (next_free m)) as [s|] eqn:Es.
-  - inversion H; subst; clear H. unfold SmInv; cbn [slots next_free len].
+  - inversion H; subst; clear H. unfold SmInv; cbn [slots next_free sm_len].
     destruct (chain_head _ _ _ Hb Hc _ Es) as (rest & -> & Hev & Hnz & Hrest).
     inversion Hnd; subst. split; [|split].
     + exists rest. split; [apply chain_supd_notin; auto|auto].
@@ -160,16 +158,16 @@ Proof.
       * rewrite sget_supd_neq in Hj by auto. eauto.
     + now rewrite supd_upd, upd_length.
   - destruct (N.of_nat (length (slots m)) =? U32MAX) eqn:El; [discriminate|]. apply N.eqb_neq in El.
-    inversion H; subst; clear H. unfold SmInv; cbn [slots next_free len]. split; [|split].
+    inversion H; subst; clear H. unfold SmInv; cbn [slots next_free sm_len]. split; [|split].
     + exists c. split; [now apply chain_app|auto].
     + intros j s' Hj. apply sget_app_inv in Hj. destruct Hj as [Hj|[_ ->]]; eauto.
       split; cbn; [unfold TWO32; lia|split; [discriminate|reflexivity]].
     + rewrite app_length. cbn. lia.
 Qed.
 
-Lemma remove_inv k m v m' : SmInv m -> remove k m = Some (v, m') -> SmInv m'.
+Lemma remove_inv k m v m' : SmInv m -> sm_remove k m = Some (v, m') -> SmInv m'.
 Proof.
-  intros ((c & Hc & Hnd) & Hok & Hb) H. unfold remove in H.
+  intros ((c & Hc & Hnd) & Hok & Hb) H. unfold sm_remove in H.
   destruct (sget (slots m) (fst k)) as [s|] eqn:Es; [|discriminate].
   destruct (gen s =? snd k) eqn:Eg; [|discriminate].
   destruct (val s) as [v0|] eqn:Ev; [|discriminate].
@@ -178,7 +176,7 @@ Proof.
   assert (Hnotin : ~ In (fst k) c).
   { intros Hin. destruct (chain_members_even _ _ _ Hc _ Hin) as (s' & Hs' & He'). rewrite Es in Hs'. inversion Hs'; subst.
     rewrite (odd_not_even _ Ho) in He'. discriminate. }
-  destruct (wrap_succ (gen s) =? 0) eqn:Ew; inversion H; subst; clear H; unfold SmInv; cbn [slots next_free len].
+  destruct (wrap_succ (gen s) =? 0) eqn:Ew; inversion H; subst; clear H; unfold SmInv; cbn [slots next_free sm_len].
   - split; [|split].
     + exists c. split; [apply chain_supd_notin; auto|auto].
     + intros j s' Hj. destruct (N.eq_dec (fst k) j) as [<-|Hne].
@@ -205,7 +203,7 @@ Proof.
     + now rewrite supd_upd, upd_length.
 Qed.
 
-Lemma empty_inv : SmInv empty.
+Lemma empty_inv : SmInv sm_empty.
 Proof. split; [|split]; cbn. - exists []. split; constructor. - intros i s H. discriminate. - unfold U32MAX; lia. Qed.
 
 (* ---------- history: every key ever issued stays "covered" by its slot's generation ---------- *)
@@ -215,7 +213,7 @@ Definition Hist (m : smap) (issued : list key) : Prop :=
 
 Theorem sm_fresh f m issued k m' :
   SmInv m -> Hist m issued -> insert_with f m = Some (k, m') ->
-  ~ In k issued /\ Hist m' (k :: issued) /\ get k m' = Some (f k).
+  ~ In k issued /\ Hist m' (k :: issued) /\ sm_get k m' = Some (f k).
 Proof.
   intros ((c & Hc & Hnd) & Hok & Hb) Hh H. unfold insert_with in H.
   destruct (sget (slots m) (next_free m)) as [s|] eqn:Es.
@@ -230,7 +228,7 @@ Proof.
         -- rewrite <- E in *. rewrite Es in Hs'. inversion Hs'; subst. eexists. split; [eapply sget_supd_eq; eauto|].
            cbn. destruct Hcov; [congruence|right; lia].
         -- eexists. split; [rewrite sget_supd_neq; eauto|auto].
-    + unfold get. cbn [slots fst snd]. erewrite sget_supd_eq by eauto. cbn. now rewrite N.eqb_refl.
+    + unfold sm_get. cbn [slots fst snd]. erewrite sget_supd_eq by eauto. cbn. now rewrite N.eqb_refl.
   - destruct (N.of_nat (length (slots m)) =? U32MAX) eqn:El; [discriminate|].
     inversion H; subst; clear H. split; [|split].
     + intros Hin. destruct (Hh _ Hin) as (s' & Hs' & _). apply sget_lt in Hs'. cbn in Hs'. lia.
@@ -238,13 +236,13 @@ Proof.
       * exists (mkSlot 1 0 (Some (f (N.of_nat (length (slots m)), 1)))). split; [|right; cbn; lia]. rewrite sget_nth. rewrite nth_error_app2 by lia.
         replace (N.to_nat (N.of_nat (length (slots m))) - length (slots m))%nat with 0%nat by lia. reflexivity.
       * destruct (Hh _ Hin) as (s' & Hs' & Hcov). eexists. split; [eapply sget_app_old; eauto|auto].
-    + unfold get. cbn [slots fst snd]. rewrite sget_nth. rewrite nth_error_app2 by lia.
+    + unfold sm_get. cbn [slots fst snd]. rewrite sget_nth. rewrite nth_error_app2 by lia.
       replace (N.to_nat (N.of_nat (length (slots m))) - length (slots m))%nat with 0%nat by lia. reflexivity.
 Qed.
 
-Lemma remove_hist k m v m' issued : SmInv m -> Hist m issued -> remove k m = Some (v, m') -> Hist m' issued.
+Lemma remove_hist k m v m' issued : SmInv m -> Hist m issued -> sm_remove k m = Some (v, m') -> Hist m' issued.
 Proof.
-  intros ((c & Hc & Hnd) & Hok & Hb) Hh H. unfold remove in H.
+  intros ((c & Hc & Hnd) & Hok & Hb) Hh H. unfold sm_remove in H.
   destruct (sget (slots m) (fst k)) as [s|] eqn:Es; [|discriminate].
   destruct (gen s =? snd k) eqn:Eg; [|discriminate].
   destruct (val s) as [v0|] eqn:Ev; [|discriminate].
@@ -265,15 +263,15 @@ Qed.
 Definition Dead (m : smap) (k : key) : Prop :=
   exists s, sget (slots m) (fst k) = Some s /\ (gen s = 0 \/ snd k < gen s).
 
-Lemma dead_get m k : N.odd (snd k) = true -> Dead m k -> get k m = None.
+Lemma dead_get m k : N.odd (snd k) = true -> Dead m k -> sm_get k m = None.
 Proof.
-  intros Hk (s & Hs & Hd). unfold get. rewrite Hs. destruct (gen s =? snd k) eqn:E; [|reflexivity].
+  intros Hk (s & Hs & Hd). unfold sm_get. rewrite Hs. destruct (gen s =? snd k) eqn:E; [|reflexivity].
   apply N.eqb_eq in E. destruct Hd as [Z|L]; [|lia]. rewrite <- E, Z in Hk. discriminate.
 Qed.
 
-Lemma remove_dead k m v m' : SmInv m -> remove k m = Some (v, m') -> Dead m' k.
+Lemma remove_dead k m v m' : SmInv m -> sm_remove k m = Some (v, m') -> Dead m' k.
 Proof.
-  intros (_ & Hok & _) H. unfold remove in H.
+  intros (_ & Hok & _) H. unfold sm_remove in H.
   destruct (sget (slots m) (fst k)) as [s|] eqn:Es; [|discriminate].
   destruct (gen s =? snd k) eqn:Eg; [|discriminate]. apply N.eqb_eq in Eg.
   destruct (val s) as [v0|] eqn:Ev; [|discriminate]. destruct (Hok _ _ Es) as [Hlt _].
@@ -297,9 +295,9 @@ Proof.
     eexists. split; [cbn [slots]; eapply sget_app_old; eauto|auto].
 Qed.
 
-Lemma dead_remove m k1 v m' k : SmInv m -> Dead m k -> remove k1 m = Some (v, m') -> Dead m' k.
+Lemma dead_remove m k1 v m' k : SmInv m -> Dead m k -> sm_remove k1 m = Some (v, m') -> Dead m' k.
 Proof.
-  intros (_ & Hok & _) (s & Hs & Hd) H. unfold remove in H.
+  intros (_ & Hok & _) (s & Hs & Hd) H. unfold sm_remove in H.
   destruct (sget (slots m) (fst k1)) as [s1|] eqn:Es; [|discriminate].
   destruct (gen s1 =? snd k1) eqn:Eg; [|discriminate].
   destruct (val s1) as [v0|] eqn:Ev; [|discriminate]. destruct (Hok _ _ Es) as [Hlt Hodd].
@@ -315,52 +313,52 @@ Proof.
 Qed.
 
 (* ---------- lifted to every operation sequence ---------- *)
-Inductive op := OIns (f : key -> V) | ORem (k : key).
-Definition step (st : smap * list key) (o : op) : smap * list key :=
+Inductive sm_op := OIns (f : key -> V) | ORem (k : key).
+Definition sm_step (st : smap * list key) (o : sm_op) : smap * list key :=
   match o with
   | OIns f => match insert_with f (fst st) with Some (k, m') => (m', k :: snd st) | None => st end
-  | ORem k => match remove k (fst st) with Some (_, m') => (m', snd st) | None => st end
+  | ORem k => match sm_remove k (fst st) with Some (_, m') => (m', snd st) | None => st end
   end.
 
 Theorem sm_all_keys_distinct ops :
-  let st := fold_left step ops (empty, []) in SmInv (fst st) /\ Hist (fst st) (snd st) /\ NoDup (snd st).
+  let st := fold_left sm_step ops (sm_empty, []) in SmInv (fst st) /\ Hist (fst st) (snd st) /\ NoDup (snd st).
 Proof.
   cbn zeta. assert (G : forall ops st, SmInv (fst st) -> Hist (fst st) (snd st) -> NoDup (snd st) ->
-     let st' := fold_left step ops st in SmInv (fst st') /\ Hist (fst st') (snd st') /\ NoDup (snd st')).
+     let st' := fold_left sm_step ops st in SmInv (fst st') /\ Hist (fst st') (snd st') /\ NoDup (snd st')).
   { clear. induction ops as [|o ops IH]; intros [m iss] Hi Hh Hn; cbn [fold_left]; [auto|].
-    destruct o as [f|k]; cbn [step fst snd].
+    destruct o as [f|k]; cbn [sm_step fst snd].
     - destruct (insert_with f m) as [[k m']|] eqn:E; cbn [fst snd].
       + destruct (sm_fresh _ _ _ _ _ Hi Hh E) as (Hf & Hh' & _).
         apply IH; cbn [fst snd]; [eapply insert_inv; eauto|exact Hh'|constructor; auto].
       + apply IH; auto.
-    - destruct (remove k m) as [[v m']|] eqn:E; cbn [fst snd].
+    - destruct (sm_remove k m) as [[v m']|] eqn:E; cbn [fst snd].
       + apply IH; cbn [fst snd]; [eapply remove_inv; eauto|eapply remove_hist; eauto|auto].
       + apply IH; auto. }
   apply G; cbn; [apply empty_inv|intros k []|constructor].
 Qed.
 
 Theorem sm_never_again k m v m' ops :
-  N.odd (snd k) = true -> SmInv m -> remove k m = Some (v, m') ->
-  get k (fst (fold_left step ops (m', []))) = None.
+  N.odd (snd k) = true -> SmInv m -> sm_remove k m = Some (v, m') ->
+  sm_get k (fst (fold_left sm_step ops (m', []))) = None.
 Proof.
   intros Hk Hi Hr. assert (Hi' : SmInv m') by exact (remove_inv _ _ _ _ Hi Hr).
   assert (Hd : Dead m' k) by exact (remove_dead _ _ _ _ Hi Hr).
   apply dead_get; auto. clear Hr Hi. generalize (@nil key) as iss. revert m' Hi' Hd.
   induction ops as [|o ops IH]; intros m' Hi' Hd iss; cbn [fold_left fst]; auto.
-  destruct o as [f|k1]; cbn [step fst snd].
+  destruct o as [f|k1]; cbn [sm_step fst snd].
   - destruct (insert_with f m') as [[k0 m'']|] eqn:E; cbn [fst snd]; [|apply IH; auto].
     apply IH; [eapply insert_inv; eauto|eapply dead_insert; eauto].
-  - destruct (remove k1 m') as [[v1 m'']|] eqn:E; cbn [fst snd]; [|apply IH; auto].
+  - destruct (sm_remove k1 m') as [[v1 m'']|] eqn:E; cbn [fst snd]; [|apply IH; auto].
     apply IH; [eapply remove_inv; eauto|eapply dead_remove; eauto].
 Qed.
 End SM.
 Arguments sget {V}.
 Arguments upd {V}.
 Arguments supd {V}.
-Arguments empty {V}.
+Arguments sm_empty {V}.
 Arguments insert_with {V}.
-Arguments remove {V}.
-Arguments get {V}.
+Arguments sm_remove {V}.
+Arguments sm_get {V}.
 Arguments upd_length {V}.
 Arguments nth_upd_eq {V}.
 Arguments nth_upd_neq {V}.
@@ -387,8 +385,8 @@ Arguments dead_get {V}.
 Arguments remove_dead {V}.
 Arguments dead_insert {V}.
 Arguments dead_remove {V}.
-Arguments op {V}.
-Arguments step {V}.
+Arguments sm_op {V}.
+Arguments sm_step {V}.
 Arguments sm_all_keys_distinct {V}.
 Arguments sm_never_again {V}.
 Arguments mkSlot {V}.
@@ -398,7 +396,7 @@ Arguments val {V}.
 Arguments mkSm {V}.
 Arguments slots {V}.
 Arguments next_free {V}.
-Arguments len {V}.
+Arguments sm_len {V}.
 Arguments ch_nil {V}.
 Arguments ch_cons {V}.
 Arguments OIns {V}.
